@@ -108,8 +108,22 @@ def trajectory_hash(sc, seed, steps):
     return h.hexdigest()
 
 
+def benchmark_history(name, prior):
+    """C14 across histories of one process: np.random.seed(123); make_benchmark_scenario(name) must
+    give the same scenario whether or not other (seeded) calls happened before in this process"""
+    import nasim.scenarios as S
+    for (n2, sd) in prior:
+        S.make_benchmark_scenario(n2, sd)
+    np.random.seed(123)
+    return fingerprint(S.make_benchmark_scenario(name))
+
+
 def main():
     params = json.loads(sys.argv[1])
+    if "_benchmark_history" in params:
+        h = params["_benchmark_history"]
+        print(json.dumps(dict(ok=True, fingerprint=benchmark_history(h["name"], h["prior"]))))
+        return
     record = params.pop("_record", True)
     traj = params.pop("_trajectory", 0)
     if record:
